@@ -6,7 +6,7 @@
      hcase : translation validation of a whole generated control stream (verdict_hist)
    Correspondence tags < 10, oracle tags 11..99, guard facts >= 200, inconclusive >= 1000. *)
 From Coq Require Import QArith List Bool PArith Arith.
-From PV Require Import Base.PyData Base.Expr Base.Interp Base.Stmts C02.Model C02.CondPrint C02.Spec C02.Remap C02.IndexDiff C02.Read C02.KRename.
+From PV Require Import Base.PyData Base.Expr Base.Interp Base.Stmts C02.Model C02.CondPrint C02.Spec C02.Remap C02.IndexDiff C02.Read C02.KRename C02.ScaleTrack.
 Import ListNotations.
 Local Open Scope nat_scope.
 
@@ -345,13 +345,28 @@ Definition verdict_hist (c : hcase) : list nat :=
   (if h_rr_ok c then tag (list_eqb par_eqb (h_par c) (h_rr_par c) && h_rvs_ok c) 41 else []).
 
 (* the generated code arrives as token lists and is read here; 42 = not readable abbreviated code *)
+(* the compartment names of the start model and after every applied step, the central compartment, OUTPUT, the
+   S index of the start model's and of the final model's F statement *)
+Record scase := mkS { s_out : id; s_central : id; s_names0 : list id; s_hist : list (list id);
+                      s_k0 : option nat; s_used : option nat }.
+Definition verdict_scale (c : scase) : list nat :=
+  match s_k0 c, s_used c with
+  | Some k0, Some used =>
+      if names_ok (s_out c) (s_central c) (s_names0 c) && forallb (names_ok (s_out c) (s_central c)) (s_hist c) &&
+         match number_of (s_names0 c) (s_central c) with Some k => Nat.eqb k k0 | None => false end
+      then tag (Nat.eqb (snd (scale_run true (s_out c) (new_compartmental_map (s_names0 c), k0) (s_hist c))) used) 50 ++ [212]
+      else []
+  | _, _ => []
+  end.
+
 Record hcase_t := mkHt {
+  t_scale : scase;
   t_pk : list tok; t_des : list tok; t_err : list tok;
   t_mk : list nmstmt -> list nmstmt -> list nmstmt -> list id -> hcase    (* pk, des, err, zero-initialised variables *)
 }.
 Definition verdict_hist_t (c : hcase_t) : list nat :=
   match read (t_pk c), read (t_des c), read (t_err c) with
-  | Some pk, Some des, Some err => verdict_hist (t_mk c pk des err (nm_assigned (pk ++ des ++ err)))
+  | Some pk, Some des, Some err => verdict_hist (t_mk c pk des err (nm_assigned (pk ++ des ++ err))) ++ verdict_scale (t_scale c)
   | _, _, _ => [42]
   end.
 
